@@ -201,7 +201,8 @@ def step (toks : List String) : String :=
   match toks with
   | "sched.slurm" :: rest =>
     fmtRes (slurmCheck (hexList (kvOf rest "ids"))
-      ⟨(kvOf rest "sqrc").toNat!, unhex (kvOf rest "sq")⟩ ⟨(kvOf rest "sarc").toNat!, unhex (kvOf rest "sa")⟩)
+      ⟨(kvOf rest "sqrc").toNat!, unhex (kvOf rest "sq")⟩
+      (acctReply (hexList (kvOf rest "ids")) ⟨(kvOf rest "sarc").toNat!, unhex (kvOf rest "sa")⟩))
   | "sched.lsf" :: rest =>
     fmtRes (lsfCheck (hexList (kvOf rest "ids")) ⟨(kvOf rest "rc").toNat!, unhex (kvOf rest "out")⟩)
   | "sched.flux" :: rest =>
